@@ -210,12 +210,22 @@ def run_case(case, ref, timeout=240):
         run_cwd = os.path.join(s.root, case["cwd_sub"]) if case.get("cwd_sub") else s.root
         os.makedirs(run_cwd, exist_ok=True)
         before = clilib.snapshot(s.base)
+        if len(inp) < 100000:
+            timeout = min(timeout, 45)  # generous for a small input even on a loaded machine
         if feed.startswith("chunk:"):
             run = run_chunked(args, run_cwd, s.env(), inp, int(feed.split(":")[1]), timeout)
         else:
             run = clilib.run_cli(args, run_cwd, s.env(), stdin=inp, strace=use_strace, timeout=timeout)
         after = clilib.snapshot(s.base)
         if run.timed_out:
+            # a small input that the library formats at once and the CLI does not finish in `timeout`
+            # seconds, twice in a row, is not load: the process does not terminate
+            if len(inp) < 100000 and feed == "pipe":
+                run2 = clilib.run_cli(args, run_cwd, s.env(), stdin=inp, strace=False, timeout=timeout)
+                if run2.timed_out:
+                    res["evaluations"] = 1
+                    finding("termination", "C17:no-termination", f"stylua {' '.join(args)} did not terminate within {timeout}s (twice) on {len(inp)} bytes of input")
+                    return res
             res["inconclusive"] += 1
             res["notes"].append(f"timeout after {timeout}s ({case.get('family')})")
             return res
@@ -328,7 +338,7 @@ FLAG_GRID = [
 ]
 
 OTHER_OPTS = [
-    ["--num-threads", "1"], ["--num-threads", "2"], ["--num-threads", "16"], ["--color", "Never"], ["--color", "Always"], ["--verbose"],
+    ["--num-threads", "0"], ["--num-threads", "1"], ["--num-threads", "2"], ["--num-threads", "16"], ["--color", "Never"], ["--color", "Always"], ["--verbose"],
     ["--allow-hidden"], ["--no-editorconfig"], ["--search-parent-directories"], ["--respect-ignores"], ["--output-format", "json"],
     ["--output-format", "standard"], ["-g", "*.txt", "--"], ["--stdin-filepath", "does/not/exist.lua"], ["--stdin-filepath", "x.txt"],
 ]
@@ -370,6 +380,11 @@ def placements():
     P.append(("cfg:above-cwd-with-search-parents+filepath", {"stylua.toml": toml_for(sp(7)), "proj/src/x.lua": "return 1\n"}, ["-s", "--stdin-filepath", "a.lua"], sp(7), "proj/src"))
     P.append(("cfg:above-cwd-without-search-parents", {"stylua.toml": toml_for(sp(7)), "proj/src/x.lua": "return 1\n"}, [], {}, "proj/src"))
     P.append(("cfg:above-cwd-nearest-wins", {"stylua.toml": toml_for(sp(7)), "proj/.stylua.toml": toml_for(sp(2)), "proj/src/x.lua": "return 1\n"}, ["-s"], sp(2), "proj/src"))
+    # a --stdin-filepath outside the working directory: the walk up from its directory never meets cwd and goes on to the root
+    P.append(("cfg:stdin-filepath-outside-cwd", {"stylua.toml": toml_for(sp(7)), "proj/a/x.lua": "return 1\n", "proj/b/y.lua": "return 1\n"},
+              ["--stdin-filepath", "../b/z.lua"], sp(7), "proj/a"))
+    P.append(("cfg:stdin-filepath-outside-cwd-absolute", {"stylua.toml": toml_for(sp(7)), "proj/a/x.lua": "return 1\n", "proj/b/y.lua": "return 1\n"},
+              ["--stdin-filepath", "{ROOT}/proj/b/z.lua"], sp(7), "proj/a"))
     # .editorconfig is the source when no stylua.toml is found - for plain stdin too; command-line options
     # win over it whichever way the text comes in
     ec_props = {"indent_style": "space", "indent_size": "2", "quote_type": "single", "max_line_length": "70"}
